@@ -68,6 +68,7 @@ var gsTargets = []gsTarget{
 	{"render", "Spread", "Clamp"},
 	{"generate", "", "Translate"}, {"generate", "", "MulAff3"},
 	{"decode", "", "isNaNOrInfinity"},
+	{"generate", "", "Scale"}, {"generate", "", "Concat"},
 	{"render", "Renderer", "CSel"}, {"render", "Renderer", "NSel"}, {"render", "Renderer", "SetCSel"}, {"render", "Renderer", "SetNSel"},
 	{"render", "Renderer", "SetLOD"}, {"render", "Renderer", "SetCReg"}, {"render", "Renderer", "SetNReg"},
 	{"render", "Renderer", "absX"}, {"render", "Renderer", "absY"}, {"render", "Renderer", "relX"}, {"render", "Renderer", "relY"},
@@ -109,6 +110,8 @@ type gsCtx struct {
 	fRead     map[string]bool
 	fWritten  map[string]bool
 	fTypes    map[string]string
+	// inside the body of a translated range loop: what falling off the end of the body yields, and no return allowed
+	loopRet string
 }
 
 func gsLoad(repo string) map[string]*gsPkg {
@@ -858,6 +861,9 @@ func (c *gsCtx) ret(vals []string) string {
 }
 
 func (c *gsCtx) fallOff() string {
+	if c.loopRet != "" {
+		return c.loopRet
+	}
 	// end of the function body
 	if len(c.named) > 0 {
 		vals := []string{}
@@ -884,7 +890,12 @@ func (c *gsCtx) stmts(list []ast.Stmt, k *gsCont) string {
 	cont := func() string { return c.stmts(rest, k) }
 	info := c.info()
 	switch v := s.(type) {
+	case *ast.RangeStmt:
+		return c.rangeLoop(v) + cont()
 	case *ast.ReturnStmt:
+		if c.loopRet != "" {
+			gsFail("return inside a loop")
+		}
 		if len(v.Results) == 0 {
 			return c.fallOffNamed()
 		}
@@ -1018,6 +1029,60 @@ func (c *gsCtx) stmts(list []ast.Stmt, k *gsCont) string {
 	}
 	gsFail("statement %T", s)
 	return ""
+}
+
+// for _, x := range xs { body }  where the body only assigns to ONE variable declared outside the loop
+// (an accumulator):  let acc := fold_left (fun acc x => body) xs acc
+func (c *gsCtx) rangeLoop(v *ast.RangeStmt) string {
+	info := c.info()
+	if v.Tok != token.DEFINE {
+		gsFail("range loop without :=")
+	}
+	if k, ok := v.Key.(*ast.Ident); !ok || k.Name != "_" {
+		gsFail("range loop with an index variable")
+	}
+	xv, ok := v.Value.(*ast.Ident)
+	if !ok {
+		gsFail("range loop without a value variable")
+	}
+	if _, ok := info.TypeOf(v.X).Underlying().(*types.Slice); !ok {
+		gsFail("range over %s", info.TypeOf(v.X))
+	}
+	// the variables assigned in the body that are declared outside it
+	var acc types.Object
+	ast.Inspect(v.Body, func(n ast.Node) bool {
+		switch st := n.(type) {
+		case *ast.AssignStmt:
+			for _, l := range st.Lhs {
+				id, ok := l.(*ast.Ident)
+				if !ok {
+					gsFail("assignment target in a loop")
+				}
+				o := c.objOf(id)
+				if o == nil || (o.Pos() >= v.Body.Pos() && o.Pos() <= v.Body.End()) {
+					continue // declared inside the body
+				}
+				if acc != nil && acc != o {
+					gsFail("loop with more than one accumulator")
+				}
+				acc = o
+			}
+		case *ast.IncDecStmt, *ast.BranchStmt, *ast.GoStmt, *ast.DeferStmt, *ast.ForStmt:
+			gsFail("statement %T in a loop", n)
+		}
+		return true
+	})
+	if acc == nil {
+		gsFail("loop without an accumulator")
+	}
+	an := c.nameOf(acc)
+	xn := c.nameOf(info.Defs[xv])
+	xs := c.expr(v.X)
+	sub := *c
+	sub.loopRet = an
+	body := sub.stmts(v.Body.List, nil)
+	return fmt.Sprintf("let %s := (fold_left (fun (%s : %s) (%s : %s) =>\n%s) %s %s) in\n",
+		an, an, c.coqType(acc.Type()), xn, c.coqType(info.Defs[xv].Type()), body, xs, an)
 }
 
 func (c *gsCtx) fallOffNamed() string {
@@ -1241,9 +1306,6 @@ func (g *gsFn) translate(all map[string]*gsFn) {
 		}
 	}
 	for _, fl := range g.decl.Type.Params.List {
-		if _, ok := fl.Type.(*ast.Ellipsis); ok {
-			gsFail("variadic parameter")
-		}
 		for _, n := range fl.Names {
 			params = append(params, "("+c.nameOf(info.Defs[n])+" : "+c.coqType(info.Defs[n].Type())+")")
 		}
